@@ -29,7 +29,7 @@ def plan(tier, seed):
          [{'hseed': seed * 100003 + 9000 + i, 'steps': steps} for i in range(n)]
 
 
-def fields_left_behind_by_regroup(S0, S1):
+def fields_left_behind_by_regroup(S0, S1, bundle=()):
   """
   Mechanism of the open finding (DESIGN.md 3.6). When a summary section is moved to another summary
   table (UpdateSummaryViewSection, or RemoveColumn of a group-by source column),
@@ -40,11 +40,12 @@ def fields_left_behind_by_regroup(S0, S1):
    (b) when two fields of the section show the same column, the map holds only one of them and the
        other is left pointing at the column of the old table.
   The old column then belongs to another table, or is removed with it, leaving colRef = 0.
-  Returns the set of field ids that match: the field exists before and after the bundle, before it
-  showed a column (for (a): a formula column other than 'group') of summary table A, after it its
-  section belongs to another summary table B, and (a) B holds a column with the old column's formula
-  under another id while the old id is taken in B by a column with another formula, or (b) another
-  field of the same section showed the same column before the bundle.
+  Returns the set of field ids that match: the field showed (before the bundle, or when an AddRecord
+  of the bundle created it) a column of summary table A (for (a): a formula column other than
+  'group'), after the bundle its section belongs to another summary table B, and (a) B holds a column
+  with the old column's formula under another id while the old id is taken in B by a column with
+  another formula, or (b) two fields of the section (existing ones and ones the bundle adds) showed
+  that column.
   """
   C0 = rows_of(S0, '_grist_Tables_column')
   C1 = rows_of(S1, '_grist_Tables_column')
@@ -53,27 +54,40 @@ def fields_left_behind_by_regroup(S0, S1):
   F0 = rows_of(S0, '_grist_Views_section_field')
   F1 = rows_of(S1, '_grist_Views_section_field')
   S1s = rows_of(S1, '_grist_Views_section')
+  adds = []      # (section, column) of fields the bundle adds explicitly
+  for a in bundle:
+    if isinstance(a, list) and len(a) > 3 and a[1] == '_grist_Views_section_field' and isinstance(a[3], dict):
+      if a[0] == 'AddRecord':
+        adds.append((a[3].get('parentId'), a[3].get('colRef')))
+      elif a[0] == 'BulkAddRecord':
+        adds.extend(zip(a[3].get('parentId', []), a[3].get('colRef', [])))
   out = set()
   for f, rec in F1.items():
-    if f not in F0 or rec['parentId'] not in S1s or F0[f]['parentId'] != rec['parentId']:
+    sec = rec['parentId']
+    if sec not in S1s or (f in F0 and F0[f]['parentId'] != sec):
       continue
-    c0 = C0.get(F0[f]['colRef'])
-    if not c0:
-      continue
-    a = c0['parentId']
-    b = S1s[rec['parentId']]['tableRef']
-    if a == b or a not in T0 or b not in T1 or not T0[a]['summarySourceTable'] or not T1[b]['summarySourceTable']:
-      continue
-    if any(g != f and x['parentId'] == F0[f]['parentId'] and x['colRef'] == F0[f]['colRef'] for g, x in F0.items()):
-      out.add(f)      # (b)
-      continue
-    if not c0['isFormula'] or c0['colId'] == 'group':
-      continue
-    bcols = [c for c in C1.values() if c['parentId'] == b]
-    same_id_other_formula = any(c['colId'] == c0['colId'] and c['formula'] != c0['formula'] for c in bcols)
-    other_id_same_formula = any(c['colId'] != c0['colId'] and c['formula'] == c0['formula'] and c['isFormula'] for c in bcols)
-    if same_id_other_formula and other_id_same_formula:
-      out.add(f)      # (a)
+    b = S1s[sec]['tableRef']
+    shown = [F0[f]['colRef']] if f in F0 else sorted(set(cr for (pid, cr) in adds if pid == sec), key=str)
+    for cr in shown:
+      c0 = C0.get(cr)
+      if not c0:
+        continue
+      a = c0['parentId']
+      if a == b or a not in T0 or b not in T1 or not T0[a]['summarySourceTable'] or not T1[b]['summarySourceTable']:
+        continue
+      n_same = sum(1 for x in F0.values() if x['parentId'] == sec and x['colRef'] == cr) + \
+               sum(1 for (pid, c) in adds if pid == sec and c == cr)
+      if n_same >= 2:
+        out.add(f)      # (b)
+        break
+      if f not in F0 or not c0['isFormula'] or c0['colId'] == 'group':
+        continue
+      bcols = [c for c in C1.values() if c['parentId'] == b]
+      same_id_other_formula = any(c['colId'] == c0['colId'] and c['formula'] != c0['formula'] for c in bcols)
+      other_id_same_formula = any(c['colId'] != c0['colId'] and c['formula'] == c0['formula'] and c['isFormula'] for c in bcols)
+      if same_id_other_formula and other_id_same_formula:
+        out.add(f)      # (a)
+        break
   return out
 
 
@@ -153,7 +167,7 @@ class MetaRefs(histories.Monitor):
     det = []
     msgs = invariants.c09(S1, det)
     acc.count('C09.checked', sum(len(S1[t][0]) for t in S1 if t.startswith('_grist_')))
-    known = fields_left_behind_by_regroup(ctx.S0, S1) if msgs else set()
+    known = fields_left_behind_by_regroup(ctx.S0, S1, ctx.bundle) if msgs else set()
     hit = False
     shown = 0
     for (mech, msg), info in zip(msgs, det):
